@@ -173,6 +173,23 @@ class ModuleScan:
             elif isinstance(node, ast.Call) and isinstance(node.func, ast.Name) and node.func.id == "sorted" and node.args \
                     and is_unordered(node.args[0]) and any(k.arg == "key" for k in node.keywords):
                 site = (ast.unparse(node), False, "")     # ties between equal keys keep the (unordered) input order
+            elif isinstance(node, ast.Call) and isinstance(node.func, ast.Attribute) and node.func.attr in ("extend", "extendleft") \
+                    and node.args and is_unordered(node.args[0]) \
+                    and not self._expr_is_set(node.func.value, local_sets, dict_of_sets, self_attrs):
+                site = (ast.unparse(node), False, "")     # a list is extended in the enumeration order of a set
+            elif isinstance(node, ast.Call) and isinstance(node.func, ast.Name) and node.func.id in ("enumerate", "zip", "next", "iter", "reversed", "map", "filter") \
+                    and node.args and any(is_unordered(a) for a in node.args):
+                par = parents.get(node)
+                ok = isinstance(par, ast.Call) and isinstance(par.func, ast.Name) and par.func.id in INSENSITIVE_CALLS and not \
+                    (par.func.id == "sorted" and par.keywords)
+                site = (ast.unparse(node), ok, "consumed by an order-insensitive function" if ok else "")
+            elif isinstance(node, ast.Starred) and is_unordered(node.value) and isinstance(parents.get(node), (ast.List, ast.Tuple, ast.Call)):
+                par = parents.get(node)
+                ok = isinstance(par, ast.Call) and isinstance(par.func, ast.Name) and par.func.id in INSENSITIVE_CALLS
+                site = (ast.unparse(par), ok, "consumed by an order-insensitive function" if ok else "")
+            elif isinstance(node, ast.AugAssign) and isinstance(node.op, ast.Add) and is_unordered(node.value) \
+                    and not self._expr_is_set(node.target, local_sets, dict_of_sets, self_attrs):
+                site = (ast.unparse(node), False, "")     # list += set
             if site is None:
                 continue
             n += 1
